@@ -589,6 +589,7 @@ def run_case(case):
                 if isinstance(q, ScriptProc):
                     log += q.log; q.log = []
             info['events'] += 1; info['posted'] += 1 if cur['posted'] else 0; info['handlers'].add(key)
+            info['tmax'] = t if info.get('tmax') is None else max(info['tmax'], t)
             if not key.startswith('Monitor.'):
                 st.setdefault('sizes', []).append((cur['own'], [len(l) for l in self.loci().values()]))
             if info['events'] > case.get('maxevents', 400):
@@ -844,6 +845,8 @@ def run_case(case):
             if r: info['oracle'].append((f.__name__.replace('final_', ''), r))
         if md[Dynamics.EVENTS] != info['events']:
             info['oracle'].append(('clock', f"metadata reports {md[Dynamics.EVENTS]} events, the tap saw {info['events']}"))
+        if info.get('tmax') is not None and info['tmax'] > md[Dynamics.TIME]:
+            info['oracle'].append(('clock', f"an event was delivered to the tap at {info['tmax']}, after the reported end time {md[Dynamics.TIME]}"))
         if st.get('fresh_check'):
             for proto in protos:
                 want = Gen(case['nodes'], case['edges'])._generate({})
